@@ -52,6 +52,11 @@ func vPreState() (*SignatureDatabase, []vEntry) {
 			sl.Signatures = append(sl.Signatures, e)
 			flat = append(flat, vEntry{sl.SignatureType, e.Owner, e.Data})
 		}
+		// both in-memory forms of "no signature header" occur: lists read by the decoder carry a nil
+		// slice, lists made by the constructor an empty one (even lists nil, odd lists empty)
+		if i%2 == 0 {
+			sl.SignatureHeader = nil
+		}
 		*db = append(*db, sl)
 	}
 	return db, flat
@@ -139,6 +144,16 @@ func VC09_Append() {
 		stored = data // only X.509 data is converted from PEM
 	}
 	_, known := ValidEFISignatureSchemes[t]
+	// is the entry already in the list it belongs to (the first list of its type and size)?
+	dup, fits := false, false
+	for _, l := range *db {
+		if !fits && l.SignatureType == t && int(l.Size) == 16+len(stored) {
+			fits = true
+			for _, s := range l.Signatures {
+				dup = vsym.Or(dup, vsym.And(s.Owner == owner, vBytesEq(s.Data, stored)))
+			}
+		}
+	}
 	err := db.Append(t, owner, data)
 	post := vFlatten(db)
 	if err != nil {
@@ -149,6 +164,7 @@ func VC09_Append() {
 	}
 	vsym.Reach("append-ok")
 	vsym.Assert(known, "append of an unknown signature type reports an error")
+	vsym.Assert(!dup, "a duplicate append reports an error")
 	if t == CERT_SHA256_GUID {
 		vsym.Assert(len(data) == 32, "append of a wrongly-sized SHA-256 hash reports an error")
 	}
